@@ -53,8 +53,14 @@ func (c *verifCounter) token() string { c.tok++; return fmt.Sprintf("L%d", c.tok
 /* targets are unique across documents, so that links leaking from one post into another show */
 func (c *verifCounter) target() string {
 	c.link++
+	if (c.link+c.doc)%4 == 0 {
+		/* a query whose parameters are named like character references: decoded once by the parser of the markup, never again */
+		return fmt.Sprintf("https://t.example/d%d/%d%s", c.doc, c.link, verifOddQuery)
+	}
 	return fmt.Sprintf("https://t.example/d%d/%d", c.doc, c.link)
 }
+
+const verifOddQuery = "?pages=3&copy=2&reg=eu&lt=1"
 
 /* expected marks: reading order; a link-bearing node's number follows its own text */
 func verifExpect(nodes []verifNode, c *verifCounter, plain bool) []verifMark {
@@ -92,6 +98,7 @@ func verifHTML(rng *rand.Rand, nodes []verifNode, c *verifCounter, inA bool, inH
 			b.WriteString(c.token() + " ")
 		case "img":
 			t, id := c.target(), c.token()
+			t = strings.ReplaceAll(t, "&", "&amp;")
 			switch rng.Intn(4) {
 			case 0:
 				b.WriteString(fmt.Sprintf(`<img src="%s" alt="%s">`, t, id))
@@ -168,7 +175,7 @@ func verifHTML(rng *rand.Rand, nodes []verifNode, c *verifCounter, inA bool, inH
 			if !ok {
 				return "", false
 			}
-			b.WriteString(fmt.Sprintf(`<a href="%s">%s</a>`, t, kids))
+			b.WriteString(fmt.Sprintf(`<a href="%s">%s</a>`, strings.ReplaceAll(t, "&", "&amp;"), kids))
 		case "sty":
 			tag := []string{"b", "i", "em", "strong", "s", "u", "code", "mark", "span", "del", "ins"}[rng.Intn(11)]
 			kids, ok := verifHTML(rng, n.Kids, c, inA, inH)
@@ -365,7 +372,7 @@ func verifRealise(rng *rand.Rand, doc []verifNode, di int) []verifReal {
 }
 
 var verifSGR = regexp.MustCompile("\x1b\\[[0-9;]*m")
-var verifMarkRe = regexp.MustCompile(`https://t\.example/d[0-9]+/[0-9]+|[LA][0-9]+|[⁰¹²³⁴⁵⁶⁷⁸⁹]+`)
+var verifMarkRe = regexp.MustCompile(`https://t\.example/d[0-9]+/[0-9]+(?:\?pages=3&copy=2&reg=eu&lt=1)?|[LA][0-9]+|[⁰¹²³⁴⁵⁶⁷⁸⁹]+`)
 
 func verifReadMarks(rendered string) []verifMark {
 	plain := verifSGR.ReplaceAllString(rendered, "")
@@ -765,7 +772,7 @@ func TestVerifMarkup(t *testing.T) {
 				sel = append(sel, link)
 			}
 			widths := []int{80, 44, 30}
-			if strings.Contains(real.text, "<pre") || strings.Contains(real.text, "wwwwwwww") || strings.Contains(real.text, "漢漢漢漢") || strings.Contains(real.text, "한w한w") || strings.Contains(real.text, "```") {
+			if strings.Contains(real.text, "<pre") || strings.Contains(real.text, "wwwwwwww") || strings.Contains(real.text, "漢漢漢漢") || strings.Contains(real.text, "한w한w") || (real.markup == "plain" && strings.Contains(real.text, verifOddQuery)) || strings.Contains(real.text, "```") {
 				/* hard wrapping may cut a token in two: read the numbers at widths where it does not */
 				widths = []int{220, 160}
 			}
